@@ -32,6 +32,7 @@ def gen_project(seed, nfiles=None, with_header=None, with_inline=None, severitie
     files = {}
     sources = []
     located = []     # (file, line, id, severity)
+    supprs = []      # structural description of every suppression: id, file, line (-1 none), inline
     hdr_lines = []
     if with_header:
         h = "#ifndef H_H\n#define H_H\n"
@@ -42,6 +43,7 @@ def gen_project(seed, nfiles=None, with_header=None, with_inline=None, severitie
                 h += "// cppcheck-suppress arrayIndexOutOfBounds\n"
                 line += 1
                 hdr_lines.append(("inline", line))
+                supprs.append({"id": "arrayIndexOutOfBounds", "file": "h.h", "line": line, "inline": True, "glob": False})
             h += HEADER_SNIPPET[2].format(n=i)
             located.append(("h.h", line, HEADER_SNIPPET[0], HEADER_SNIPPET[1]))
             line += 1
@@ -64,11 +66,13 @@ def gen_project(seed, nfiles=None, with_header=None, with_inline=None, severitie
             if with_inline and r < 0.25:
                 text += "// cppcheck-suppress %s\n" % sid
                 line += 1
+                supprs.append({"id": sid, "file": name, "line": line, "inline": True, "glob": False})
             elif with_inline and r < 0.35:
                 other = rnd.choice([s[0] for s in SNIPPETS if s[0] != sid])
                 text += "// cppcheck-suppress %s\n" % other      # will be unmatched
                 line += 1
                 inline_unmatched.append((name, line))
+                supprs.append({"id": other, "file": name, "line": line, "inline": True, "glob": False})
             elif with_inline and r < 0.42:
                 text += "\n"
                 line += 1
@@ -101,16 +105,22 @@ def gen_project(seed, nfiles=None, with_header=None, with_inline=None, severitie
         f, ln, _i, _s = rnd.choice(located) if located else ("f0.c", 2, "", "")
         if r < 0.25:
             supp.append(sid)
+            supprs.append({"id": sid, "file": "", "line": -1, "inline": False, "glob": False})
         elif r < 0.5:
             supp.append("%s:%s" % (sid, f))
+            supprs.append({"id": sid, "file": f, "line": -1, "inline": False, "glob": False})
         elif r < 0.7:
             supp.append("%s:%s:%d" % (sid, f, ln))
+            supprs.append({"id": sid, "file": f, "line": ln, "inline": False, "glob": False})
         elif r < 0.8:
             supp.append("%s:%s:%d" % (sid, f, ln + 7))
+            supprs.append({"id": sid, "file": f, "line": ln + 7, "inline": False, "glob": False})
         elif r < 0.9:
             supp.append("*:%s" % f)
+            supprs.append({"id": "*", "file": f, "line": -1, "inline": False, "glob": True})
         else:
             supp.append("%s:*.c" % sid)
+            supprs.append({"id": sid, "file": "*.c", "line": -1, "inline": False, "glob": True})
     for s in supp:
         opts.append("--suppress=" + s)
     xs = []
@@ -128,7 +138,7 @@ def gen_project(seed, nfiles=None, with_header=None, with_inline=None, severitie
         opts.append("--emit-duplicates")
     return {"name": "p%d" % seed, "files": files, "sources": sources, "opts": opts,
             "desc": "seed=%d files=%d header=%s inline=%s" % (seed, nfiles, with_header, with_inline),
-            "located": located}
+            "located": located, "supprs": supprs, "enabled": en, "inline": with_inline}
 
 
 def materialize(proj, root):
